@@ -661,3 +661,66 @@ Proof. intros Hok. unfold item_wf. rewrite parse_exact_encode by exact Hok. refl
 Corollary skip_item_encode it rest : item_ok it = true ->
   skip_item (encode_item it ++ rest) = Ok (encode_item it, rest).
 Proof. intros Hok. apply skip_item_parse. exists it. split; [apply parse_one_encode, Hok|reflexivity]. Qed.
+
+(* ------------------------------------------------------------------ canonical-form recognisers *)
+
+Lemma list_eqb_cons {A} (eqb : A -> A -> bool) x t1 y t2 :
+  list_eqb eqb (x :: t1) (y :: t2) = eqb x y && list_eqb eqb t1 t2.
+Proof. reflexivity. Qed.
+
+Lemma list_eqb_eq {A} (eqb : A -> A -> bool) :
+  (forall x y, eqb x y = true <-> x = y) -> forall l1 l2, list_eqb eqb l1 l2 = true <-> l1 = l2.
+Proof.
+  intros He. induction l1 as [|x t1 IH]; intros [|y t2]; try (split; [discriminate|discriminate]).
+  - split; reflexivity.
+  - rewrite list_eqb_cons, andb_true_iff, He, IH. split; [intros [-> ->]; reflexivity|intros H; injection H; auto].
+Qed.
+
+Lemma bytes_eqb_eq a b : bytes_eqb a b = true <-> a = b.
+Proof. apply list_eqb_eq. intros x y. apply N.eqb_eq. Qed.
+
+Lemma bytes_eqb_refl a : bytes_eqb a a = true.
+Proof. apply bytes_eqb_eq. reflexivity. Qed.
+
+Lemma parse_exact_ok bs it : parse_exact bs = Ok it <-> parse_one bs = Ok (it, []).
+Proof.
+  unfold parse_exact. destruct (parse_one bs) as [[it' [|b t]]| | |]; split; intros H; try discriminate;
+    injection H as ->; reflexivity.
+Qed.
+
+(* heads_shortest: the bytes are exactly the shortest-head printing of the item they parse to *)
+Theorem heads_shortest_sound bs : heads_shortest bs = true ->
+  exists it, parse_exact bs = Ok it /\ encode_item it = bs.
+Proof.
+  unfold heads_shortest. destruct (parse_exact bs) as [it| | |]; try discriminate.
+  intros H. exists it. split; [reflexivity|apply bytes_eqb_eq, H].
+Qed.
+
+Theorem heads_shortest_encode it : item_ok it = true -> heads_shortest (encode_item it) = true.
+Proof. intros Hok. unfold heads_shortest. rewrite parse_exact_encode by exact Hok. apply bytes_eqb_refl. Qed.
+
+Theorem canon_bytes3_sound a m c bs : canon_bytes3 a m c bs = true ->
+  exists it, parse_exact bs = Ok it /\ encode_item it = bs /\ canon_item3 a m c it = true.
+Proof.
+  unfold canon_bytes3. destruct (parse_exact bs) as [it| | |]; try discriminate.
+  intros H. apply andb_true_iff in H as [H1 H2]. exists it. repeat split; [apply bytes_eqb_eq, H2|exact H1].
+Qed.
+
+Theorem canon_bytes3_encode a m c it : item_ok it = true ->
+  canon_bytes3 a m c (encode_item it) = canon_item3 a m c it.
+Proof.
+  intros Hok. unfold canon_bytes3. rewrite parse_exact_encode by exact Hok.
+  rewrite bytes_eqb_refl. apply andb_true_r.
+Qed.
+
+Corollary canon_bytes_encode a c it : item_ok it = true -> canon_bytes a c (encode_item it) = canon_item a c it.
+Proof. apply canon_bytes3_encode. Qed.
+
+Lemma canon_bytes3_wf a m c bs : canon_bytes3 a m c bs = true -> item_wf bs = true.
+Proof. intros H. apply canon_bytes3_sound in H as [it [H _]]. unfold item_wf. rewrite H. reflexivity. Qed.
+
+Lemma canon_bytes3_shortest a m c bs : canon_bytes3 a m c bs = true -> heads_shortest bs = true.
+Proof.
+  unfold canon_bytes3, heads_shortest. destruct (parse_exact bs); try discriminate.
+  intros H. apply andb_true_iff in H. tauto.
+Qed.
